@@ -154,6 +154,7 @@ type sut struct {
 	auth      bool // rejecting authenticator installed
 	h         *vgirpc.HttpServer
 	produced  []string // codecs actually produced when probed (sorted)
+	maxReq    int64
 	label     string
 }
 
@@ -454,7 +455,11 @@ func setOf(v string) []string {
 
 // probe measures which codecs the server actually produces.
 func probe(u *sut) []string {
-	cols, sc := binCol(bytes.Repeat([]byte("probe "), 200))
+	reps := 200
+	if u.maxReq > 0 {
+		reps = 15 // stay below the advertised request cap
+	}
+	cols, sc := binCol(bytes.Repeat([]byte("probe "), reps))
 	q := reqSpec{Kind: "probe", Method: "POST", Path: "/echo", Body: wd.Request("echo", sc, cols, 1), CT: wd.ArrowCT, Arrow: true}
 	if u.auth {
 		return nil // every Arrow route is behind the rejecting authenticator; nothing can be produced
@@ -521,7 +526,8 @@ func main() {
 		"stamp:custom-header", "stamp:content-encoding", "arrow:unary", "arrow:handler-error", "arrow:describe", "arrow:stream-init",
 		"arrow:unknown-method-404", "arrow:bad-content-type-415", "arrow:bad-body-400",
 		"non-arrow:landing-page", "non-arrow:describe-page", "non-arrow:health", "non-arrow:not-found-page", "non-arrow:options", "non-arrow:401-unary",
-		"non-arrow-with-codec-negotiated", "custom-overrides-standard-order", "level-rejected", "big-body", "advertised:nonempty", "advertised:empty")
+		"non-arrow-with-codec-negotiated", "custom-overrides-standard-order", "level-rejected", "big-body", "advertised:nonempty", "advertised:empty",
+		"level:random", "non-arrow:too-large-413-text")
 
 	type cfg struct {
 		level int
@@ -530,8 +536,18 @@ func main() {
 	}
 	cfgs := []cfg{{0, false, false}, {1, true, false}, {2, true, false}, {3, true, false}, {4, true, false}, {9, true, false},
 		{11, true, false}, {0, true, false}, {-1, true, false}, {0, false, true}, {3, true, true}, {0, true, true}}
+	// The list above is a set of traps; whether a level is a valid configuration is decided by
+	// SetCompressionLevel itself (error = rejected, server unchanged), so add levels at large.
+	lrng := r.Rand(3)
+	for i := 0; i < 6; i++ {
+		cfgs = append(cfgs, cfg{lrng.IntN(40) - 8, true, false})
+	}
+	cfgs = append(cfgs, cfg{1 << 30, true, false}, cfg{-1 << 30, true, false})
 	var suts []*sut
-	for _, c := range cfgs {
+	for ci, c := range cfgs {
+		if ci >= 12 {
+			r.Class("level:random")
+		}
 		u := newSUT(r, c.level, c.set, c.auth, 0)
 		u.produced = probe(u)
 		if strings.Contains(u.label, "rejected") {
@@ -549,6 +565,13 @@ func main() {
 		}
 		suts = append(suts, u)
 	}
+	{
+		u := newSUT(r, 2, true, false, 700)
+		u.label += "+maxreq700"
+		u.maxReq = 700
+		u.produced = probe(u)
+		suts = append(suts, u)
+	}
 
 	nPairs := r.N(40000, 800000)
 	nBig := r.N(150, 4000)
@@ -560,6 +583,18 @@ func main() {
 		custom, hasC := genAccept(rng)
 		standard, hasS := genAccept(rng)
 		q := genRequest(rng, big, u.auth)
+		if u.maxReq > 0 {
+			// half of the requests exceed the advertised cap: refused with a text/plain 413 before dispatch
+			q = genRequest(rng, false, false)
+			if rng.IntN(2) == 0 {
+				cols, sc := binCol(payload(rng, 1500))
+				q = reqSpec{Kind: "too-large-413-text", Method: "POST", Path: "/echo", Body: wd.Request("echo", sc, cols, 1), CT: wd.ArrowCT, Arrow: false}
+				q.BodyN = len(q.Body)
+			} else if int64(len(q.Body)) > u.maxReq {
+				q.Arrow = false
+				q.Kind = "too-large-413-text"
+			}
+		}
 		if big {
 			r.Class("big-body")
 		}
@@ -694,6 +729,22 @@ func main() {
 				break
 			}
 		}
+	}
+	// Counted, not judged (the statement quantifies over "header strings" and "whitespace" without
+	// saying whether these belong): non-SP/HTAB whitespace around a token, a codec offered on a
+	// SECOND Accept-Encoding header line, a non-ASCII letter that Unicode lower-casing maps to ASCII.
+	{
+		u := suts[0]
+		cols, sc := binCol(bytes.Repeat([]byte("probe "), 200))
+		body := wd.Request("echo", sc, cols, 1)
+		try := func(name string, hdr [][2]string) {
+			rec := wd.HTTPDo(u.h, "POST", "/echo", body, append([][2]string{{"Content-Type", wd.ArrowCT}}, hdr...), false)
+			r.Set("unjudged."+name, map[string]string{"content_encoding": rec.Header().Get("Content-Encoding"), "x_vgi_content_encoding": rec.Header().Get("X-VGI-Content-Encoding")})
+		}
+		try("nbsp-padded-token", [][2]string{{"Accept-Encoding", "\u00a0zstd\u00a0"}})
+		try("second-accept-encoding-line", [][2]string{{"Accept-Encoding", "br"}, {"Accept-Encoding", "gzip"}})
+		try("unicode-case-gz\u0130p", [][2]string{{"Accept-Encoding", "gz\u0130p"}})
+		try("vertical-tab-padded-token", [][2]string{{"Accept-Encoding", "\vzstd\f"}})
 	}
 	for _, u := range suts {
 		r.Set("produced["+u.label+"]", strings.Join(u.produced, ","))
